@@ -1,5 +1,5 @@
 reg("C17", "automatic model fitting returns a usable, constraint-abiding model or reports failure",
-    parts=[dict(harness="c17_fit", cases=dict(quick=400, thorough=8000), timeout_case=300)],
+    parts=[dict(harness="c17_fit", cases=dict(quick=480, thorough=8000), timeout_case=300)],
     rule="case = (source in {variogram computed from a harness-simulated data set, hand-made Vario through the public "
          "setters, variogram map}, ndim 1-3, nvar 1-3, 1-4 directions, pathology in {none, noisy, non-monotone, empty lags, "
          "pure nugget, all-zero, huge, tiny, few pairs}, 1-4 basic structures from the types offered for the dimension, "
